@@ -122,10 +122,7 @@ def stepLine (st : St) : List String → Option (St × String)
     if now = "1" then
       let r := call st.prog st.s (.wrapper fn' period' nm' args' count') none st.s.now []
       -- wrapper() returns the name it re-scheduled itself under, or None
-      let again : Bool := match count'.map (· - 1) with
-        | none => true
-        | some c => decide (0 < c)
-      let ret := match again, r.2.1.getLast? with
+      let ret := match again (count'.map (· - 1)), r.2.1.getLast? with
         | true, some (.registered _ n _ _ _) => "ok:" ++ encName n
         | _, _ => "ok:~"
       pure ({ st with s := r.1 }, render r ret)
